@@ -710,6 +710,128 @@ theorem advertised_in_tables {info : Info} {s s1 : Side} {k : KexInit}
   · exact Or.inl h
   · exact Or.inr ⟨rfl, b, hb, rfl⟩
 
+/-! ## histories on one transport: reads, `disabled_algorithms` changes, assignments, (re)negotiation -/
+
+/-- Reading `preferred_*` / `get_security_options()` never changes what the transport will do:
+    a history with its reads removed ends in the same state. -/
+theorem reads_are_noops (info : Info) (s : Side) (ops : List Op) :
+    applyOps info s ops = applyOps info s (ops.filter fun o => !o.isRead) := by
+  induction ops generalizing s with
+  | nil => rfl
+  | cons op rest ih =>
+    cases op with
+    | read c => simpa [applyOps, applyOp, Op.isRead] using ih s
+    | setPref c x => simpa [applyOps, Op.isRead] using ih _
+    | setDisabled c x => simpa [applyOps, Op.isRead] using ih _
+
+private theorem withDis_wf {info : Info} {s : Side} (hw : s.wf info = true) (c : Cat) (x : List Name) :
+    (s.withDis c x).wf info = true := by
+  cases c <;> exact hw
+
+/-- every history keeps the transport well-formed -/
+theorem wf_after_ops {info : Info} (ops : List Op) {s : Side} (hw : s.wf info = true) :
+    (applyOps info s ops).wf info = true := by
+  induction ops generalizing s with
+  | nil => exact hw
+  | cons op rest ih =>
+    cases op with
+    | read c => exact ih hw
+    | setPref c x => exact ih (setPref_wf hw c x)
+    | setDisabled c x => exact ih (withDis_wf hw c x)
+
+/-- The offered lists are a pure function of (preferences, disabled sets) *at that moment*:
+    `preferred_<c>` = the current preference list minus the currently disabled names (host keys: plus
+    the non-disabled cert variants) — whatever was read, assigned or disabled earlier. -/
+theorem preferred_pure (s : Side) (c : Cat) :
+    (∀ a ∈ s.preferred c, a ∉ s.dis c) ∧
+    (c ≠ .keys → s.preferred c = filterAlg (s.pref c) (s.dis c)) ∧
+    (∀ a, a ∈ s.pref c → a ∉ s.dis c → a ∈ s.preferred c) := by
+  cases c
+  · exact ⟨fun a ha => (mem_filterAlg.mp ha).2, fun _ => rfl, fun a h1 h2 => mem_filterAlg.mpr ⟨h1, h2⟩⟩
+  · refine ⟨fun a ha => mem_preferredKeys ha, fun h => absurd rfl h, fun a h1 h2 => ?_⟩
+    show a ∈ s.preferredKeys
+    unfold Side.preferredKeys
+    exact List.mem_append_left _ (mem_filterAlg.mpr ⟨h1, h2⟩)
+  · exact ⟨fun a ha => (mem_filterAlg.mp ha).2, fun _ => rfl, fun a h1 h2 => mem_filterAlg.mpr ⟨h1, h2⟩⟩
+  · exact ⟨fun a ha => (mem_filterAlg.mp ha).2, fun _ => rfl, fun a h1 h2 => mem_filterAlg.mpr ⟨h1, h2⟩⟩
+  · exact ⟨fun a ha => (mem_filterAlg.mp ha).2, fun _ => rfl, fun a h1 h2 => mem_filterAlg.mpr ⟨h1, h2⟩⟩
+
+/-- **History independence.**  Two histories on a transport that end with the same preference lists
+    and the same disabled sets advertise the same KEXINIT and negotiate identically with every peer
+    (initial kex or rekey) — earlier reads, earlier `disabled_algorithms` values and refused
+    assignments leave no trace. -/
+theorem history_independent (info : Info) (s : Side) (h1 h2 : List Op)
+    (hp : ∀ c, (applyOps info s h1).pref c = (applyOps info s h2).pref c)
+    (hd : ∀ c, (applyOps info s h1).dis c = (applyOps info s h2).dis c) :
+    applyOps info s h1 = applyOps info s h2 := by
+  have inv : ∀ (ops : List Op) (t : Side),
+      (applyOps info t ops).serverMode = t.serverMode ∧ (applyOps info t ops).serverKeys = t.serverKeys ∧
+      (applyOps info t ops).hasModuli = t.hasModuli ∧ (applyOps info t ops).advertiseStrict = t.advertiseStrict ∧
+      (applyOps info t ops).agreedStrict = t.agreedStrict ∧
+      (applyOps info t ops).initialKexDone = t.initialKexDone := by
+    intro ops
+    induction ops with
+    | nil => intro t; exact ⟨rfl, rfl, rfl, rfl, rfl, rfl⟩
+    | cons op rest ih =>
+      intro t
+      have h := ih (applyOp info t op)
+      have e : (applyOp info t op).serverMode = t.serverMode ∧ (applyOp info t op).serverKeys = t.serverKeys ∧
+          (applyOp info t op).hasModuli = t.hasModuli ∧ (applyOp info t op).advertiseStrict = t.advertiseStrict ∧
+          (applyOp info t op).agreedStrict = t.agreedStrict ∧
+          (applyOp info t op).initialKexDone = t.initialKexDone := by
+        cases op with
+        | read c => exact ⟨rfl, rfl, rfl, rfl, rfl, rfl⟩
+        | setDisabled c x => cases c <;> exact ⟨rfl, rfl, rfl, rfl, rfl, rfl⟩
+        | setPref c x =>
+          simp only [applyOp, setPref]
+          split
+          · exact ⟨rfl, rfl, rfl, rfl, rfl, rfl⟩
+          · cases c <;> exact ⟨rfl, rfl, rfl, rfl, rfl, rfl⟩
+      simp only [applyOps]
+      exact ⟨h.1.trans e.1, h.2.1.trans e.2.1, h.2.2.1.trans e.2.2.1, h.2.2.2.1.trans e.2.2.2.1,
+        h.2.2.2.2.1.trans e.2.2.2.2.1, h.2.2.2.2.2.trans e.2.2.2.2.2⟩
+  obtain ⟨a1, a2, a3, a4, a5, a6⟩ := inv h1 s
+  obtain ⟨b1, b2, b3, b4, b5, b6⟩ := inv h2 s
+  have p1 := hp .kex; have p2 := hp .keys; have p3 := hp .ciphers; have p4 := hp .macs; have p5 := hp .compression
+  have d1 := hd .kex; have d2 := hd .keys; have d3 := hd .ciphers; have d4 := hd .macs; have d5 := hd .compression
+  simp only [Side.pref, Side.dis] at p1 p2 p3 p4 p5 d1 d2 d3 d4 d5
+  cases hA : applyOps info s h1
+  cases hB : applyOps info s h2
+  rw [hA] at a1 a2 a3 a4 a5 a6 p1 p2 p3 p4 p5 d1 d2 d3 d4 d5
+  rw [hB] at b1 b2 b3 b4 b5 b6 p1 p2 p3 p4 p5 d1 d2 d3 d4 d5
+  simp only at a1 a2 a3 a4 a5 a6 b1 b2 b3 b4 b5 b6 p1 p2 p3 p4 p5 d1 d2 d3 d4 d5
+  subst a1 a2 a3 a4 a5 a6 p1 p2 p3 p4 p5 d1 d2 d3 d4 d5
+  simp [b1, b2, b3, b4, b5, b6]
+
+/-- **Nothing disabled at the time of the negotiation is offered or agreed** — after any history of
+    reads, `disabled_algorithms` changes and assignments, for the initial key exchange and for every
+    re-negotiation (`s` may itself be the state a previous negotiation left), against any peer. -/
+theorem history_never_disabled {info : Info} (s : Side) (ops : List Op) {s1 s2 : Side} {k p : KexInit}
+    {seqno : Nat} {a : Agreed}
+    (hsend : sendKexInit info (applyOps info s ops) = .ok (s1, k))
+    (hparse : parseKexInit info s1 p seqno = .ok (s2, a)) :
+    let now := applyOps info s ops
+    (∀ x ∈ k.kex, x ∈ now.disKex → x = extInfoC ∨ x = strictMarker now.serverMode) ∧
+    (∀ x ∈ k.keys, x ∉ now.disKeys) ∧
+    (∀ x ∈ k.cEnc, x ∉ now.disCiphers) ∧ (∀ x ∈ k.sEnc, x ∉ now.disCiphers) ∧
+    (∀ x ∈ k.cMac, x ∉ now.disMacs) ∧ (∀ x ∈ k.sMac, x ∉ now.disMacs) ∧
+    (∀ x ∈ k.cComp, x ∉ now.disComp) ∧ (∀ x ∈ k.sComp, x ∉ now.disComp) ∧
+    a.kex ∉ now.disKex ∧ a.hostKey ∉ now.disKeys ∧
+    a.localCipher ∉ now.disCiphers ∧ a.remoteCipher ∉ now.disCiphers ∧
+    a.localMac ∉ now.disMacs ∧ a.remoteMac ∉ now.disMacs ∧
+    a.localComp ∉ now.disComp ∧ a.remoteComp ∉ now.disComp := by
+  intro now
+  obtain ⟨q1, q2, q3, q4, q5, q6, q7, q8⟩ := advertised_never_disabled hsend
+  obtain ⟨r1, r2, r3, r4, r5, r6, r7, r8⟩ := never_disabled hparse
+  have hs1 := (send_spec hsend).1
+  have e1 : s1.disKex = now.disKex := by rw [hs1]
+  have e2 : s1.disKeys = now.disKeys := by rw [hs1]
+  have e3 : s1.disCiphers = now.disCiphers := by rw [hs1]
+  have e4 : s1.disMacs = now.disMacs := by rw [hs1]
+  have e5 : s1.disComp = now.disComp := by rw [hs1]
+  rw [e1] at r1; rw [e2] at r2; rw [e3] at r3 r4; rw [e4] at r5 r6; rw [e5] at r7 r8
+  exact ⟨q1, q2, q3, q4, q5, q6, q7, q8, r1, r2, r3, r4, r5, r6, r7, r8⟩
+
 /-! ## the tables of the source (regenerated on every run) -/
 
 /-- every name of `_kex_info`, `_key_info` (and its cert variant), `_cipher_info`, `_mac_info`,
